@@ -75,6 +75,7 @@ inductive P where
   | rvRecv (t : Nat)                          -- parked rendezvous receiver (record in `rw`)
   | rvTo (t : Nat) (stage : Nat)              -- timed rendezvous receive: 1 = registered, 2 = CAS WAITING→CANCELLED done, not yet unlinked
   | osRecv (t : Nat) (h : HName)              -- oneshot `recv` future pending
+  | stg (t : Nat) (k : Nat) (h : HName) (sent rest : List Val)   -- concurrent specification only: between two atomic steps of a oneshot `send` (k = 1, 2, 3) / an spsc sender `close` (10) or `drop` (11), see `stgStep`
   | fin (out : Out)
   deriving DecidableEq, Repr, Inhabited, Hashable
 
@@ -207,7 +208,8 @@ def closeEffect (fl : Flavour) (s : St) (side : Side) : St :=
     if s1.rc = 0 then { s1 with sdisc := s1.sdisc ++ s1.sw.map (fun x => (x.1, x.2.2)), sw := [] } else s1
   | .rx, .os =>
     let s1 := { s with rd := true }
-    if s1.os = .empty then { s1 with os := .closed }
+    -- `mark_receiver_dropped`: CAS EMPTY→CLOSED; it fails while a sender holds WRITING (`osw`, concurrent spec only)
+    if s1.os = .empty ∧ s1.osw = false then { s1 with os := .closed }
     else if s1.os = .sent then { s1.drainBuf with os := .taken }
     else s1
 
@@ -370,6 +372,42 @@ def osSendStep (s : St) (h : HName) (hd : Handle) (v : Val) : St × P :=
   else if s.os ≠ .empty then (osSendFinish hd ((s.eraseHandle h).giveBack [v]), .fin { tag := .sentAlready, back := [v] })
   else (osSendFinish hd { ((s.eraseHandle h).push h.idx [v]) with os := .sent }, .fin { tag := .ok, sent := [v] })
 
+/-- a oneshot `send` that fails: the value goes back to the caller, the consumed handle is dropped -/
+def osSendFail (s : St) (h : HName) (hd : Handle) (v : Val) (tag : Tag) : St × P :=
+  (osSendFinish hd ((s.eraseHandle h).giveBack [v]), .fin { tag := tag, back := [v] })
+
+/-- Start of a oneshot `send`.  In the concurrent specification it is NOT one atomic step (core.rs:140-205,
+mod.rs:151-160): the sender first claims the channel (CAS EMPTY→WRITING) — from then on competing senders
+are told `Sent` although receivers and `is_sent` still see nothing — then looks at `receiver_dropped` a
+second time (backtrack: store EMPTY, `Closed`), then writes the value and swaps →SENT, and only after
+`shared.send` has returned is the consumed `Sender` dropped (`decrement_senders`).  `osw` is the WRITING
+claim; the later steps are `stgStep` 1–3.  Sequentially (nobody else running) the four steps are the one
+step `osSendStep`. -/
+def osSendStart (cfg : Cfg) (s : St) (t : Nat) (h : HName) (hd : Handle) (v : Val) : St × P :=
+  if cfg.granular ∧ hd.closed = false ∧ s.rd = false ∧ s.os = .empty then
+    if s.osw then osSendFail s h hd v .sentAlready
+    else ({ (s.eraseHandle h) with osw := true }, .stg t 1 h [] [v])
+  else osSendStep s h hd v
+
+/-- The later atomic steps of operations that are several steps in the concurrent specification.
+* oneshot `send` — 1: WRITING is held, second look at `receiver_dropped` (backtrack → `Closed`, or commit);
+  2: committed — write the value, swap →SENT; 3: `shared.send` returned — the consumed `Sender` is dropped;
+* spsc sender `close` (10) / `drop` (11): `close_internal` stores `producer_dropped` first (done at the
+  start step) and decrements `sender_count` in a second step (bounded_sync.rs:51-54, bounded_async.rs:37-40);
+  the async batch receives test the flag, everything else the count. -/
+def stgStep (fl : Flavour) (s : St) (t k : Nat) (h : HName) (sent rest : List Val) : Option (St × P) :=
+  if k = 1 ∧ fl.fam = .os then
+    if s.rd then some (teardownIfLast (osDecSenders (({ s with osw := false } : St).giveBack rest)), .fin { tag := .closed, sent := sent, back := rest })
+    else some (s, .stg t 2 h sent rest)
+  else if k = 2 ∧ fl.fam = .os then
+    match rest with
+    | [v] => if s.os = .empty then some ({ (s.push h.idx [v]) with os := .sent, osw := false }, .stg t 3 h (sent ++ [v]) []) else none
+    | _ => none
+  else if k = 3 ∧ fl.fam = .os ∧ rest = [] then some (teardownIfLast (osDecSenders s), .fin { tag := .ok, sent := sent })
+  else if k = 10 ∧ sent = [] ∧ rest = [] then some ({ s with sc := wdec s.sc }, .fin { tag := .ok })
+  else if k = 11 ∧ sent = [] ∧ rest = [] then some (teardownIfLast { s with sc := wdec s.sc }, .fin { tag := .ok })
+  else none
+
 /-- start of a send form on a buffered family (everything but rendezvous / oneshot); `s1` = `s` after
 the values were taken from the caller -/
 def startSendBuf (fl : Flavour) (cfg : Cfg) (s s1 : St) (t : Nat) (f : Form) (h : HName) (hd : Handle)
@@ -394,7 +432,7 @@ def startSend (fl : Flavour) (cfg : Cfg) (s : St) (t : Nat) (f : Form) (h : HNam
       match fl.fam with
       | .os =>
         match vs with
-        | [v] => osSendStep (s.create vs) h hd v
+        | [v] => osSendStart cfg (s.create vs) t h hd v
         | _ => (s, .fin { tag := .unsupported })
       | .rv =>
         match vs with
@@ -499,6 +537,22 @@ def startDrop (fl : Flavour) (s : St) (h : HName) : St × P :=
   | some hd =>
     (teardownIfLast (if hd.closed then s.eraseHandle h else closeEffect fl (s.eraseHandle h) h.side), .fin { tag := .ok })
 
+/-- spsc sender `close` / `drop` in the concurrent specification: first half (`producer_dropped := true`, own flag /
+handle gone); the count is decremented by `stgStep` 10 / 11 -/
+def startCloseSb (s : St) (t : Nat) (h : HName) : St × P :=
+  match findH s.hs h with
+  | none => (s, .fin { tag := .noHandle })
+  | some hd =>
+    if hd.closed then (s, .fin { tag := .closeErr })
+    else ({ s with hs := setH s.hs h (fun x => { x with closed := true }), pd := true }, .stg t 10 h [] [])
+
+def startDropSb (s : St) (t : Nat) (h : HName) : St × P :=
+  match findH s.hs h with
+  | none => (s, .fin { tag := .noHandle })
+  | some hd =>
+    if hd.closed then (teardownIfLast (s.eraseHandle h), .fin { tag := .ok })
+    else ({ (s.eraseHandle h) with pd := true }, .stg t 11 h [] [])
+
 def startClone (fl : Flavour) (s : St) (h h' : HName) : St × P :=
   match findH s.hs h', findH s.hs h with
   | some _, _ => (s, .fin { tag := .nameExists })
@@ -533,8 +587,8 @@ def start (fl : Flavour) (cfg : Cfg) (s : St) (t : Nat) : Op → St × P
   | .snd f h vs => startSend fl cfg s t f h vs
   | .rcv f h n => startRecv fl cfg s t f h n
   | .clone h h' => startClone fl s h h'
-  | .close h => startClose fl s h
-  | .drop h => startDrop fl s h
+  | .close h => if cfg.granular ∧ fl.fam = .sb ∧ h.side = .tx then startCloseSb s t h else startClose fl s h
+  | .drop h => if cfg.granular ∧ fl.fam = .sb ∧ h.side = .tx then startDropSb s t h else startDrop fl s h
   | .probe p h => startProbe fl s p h
   | .toAsync h => startConvert fl s h true
   | .toSync h => startConvert fl s h false
@@ -604,6 +658,7 @@ def microDet (fl : Flavour) (cfg : Cfg) (s : St) : P → Option (St × P)
     match findH s.hs h with
     | none => none
     | some hd => osRecvStep s hd
+  | .stg t k h sent rest => stgStep fl s t k h sent rest
   | .fin _ => none
 
 /-- Additional behaviours that exist only under concurrency (never in a sequential run, where
@@ -671,6 +726,7 @@ def blocksOut : Out := { tag := .blocks }
 def P.inHand : P → List Val
   | .bsend _ _ _ _ rest _ => rest
   | .bsendEnd _ _ _ rest => rest
+  | .stg _ _ _ _ rest => rest
   | _ => []
 
 def P.outOrBlocks : P → Out
